@@ -101,6 +101,10 @@ def replay(path):
     verdict, s, detail = single(exe, env, doc["plan"])
     log("replay %s: %s %s %s" % (path, verdict, s, detail))
     if verdict == "violation":
+        k = common.match_known(PROP, s)
+        if k:
+            log("KNOWN-FINDING: property=%s %s (signature %s, replay %s)" % (PROP, k["what"], s, path))
+            return 0
         log("VIOLATION property=%s replay=%s" % (PROP, path))
         return 1
     if verdict != "ok":
